@@ -26,8 +26,8 @@ import time
 from . import env
 
 KNOWN_FINDINGS_FILE = os.path.join(env.VERIF_DIR, 'known_findings.json')
-EVIDENCE_DIR = os.path.join(env.VERIF_DIR, 'evidence')
-REPLAY_DIR = os.path.join(env.VERIF_DIR, 'replays')
+EVIDENCE_DIR = os.environ.get('VERIF_EVIDENCE_DIR') or os.path.join(env.VERIF_DIR, 'evidence')
+REPLAY_DIR = os.environ.get('VERIF_REPLAY_DIR') or os.path.join(env.VERIF_DIR, 'replays')
 MAX_PRINTED = 10
 NCPU = int(os.environ.get('VERIF_JOBS', '0')) or min(16, os.cpu_count() or 4)
 
